@@ -441,7 +441,7 @@ func init() {
 	core.Register(&core.Prop{
 		ID:        "C14",
 		Technique: "structural comparison of the real Codec.Descriptor() with a descriptor derived independently from the reflect.Type, for every generated type and each of its tagged sub-types",
-		Rule:      "generated and library types with a finite descriptor (all options, json tags incl. \",omitempty\", \"-\", unicode names, skipped and unexported fields, null.*, JSON any, BigQuery time, named scalars and containers) in the four configurations; index, name rule, field type, struct type name, explicit presence, logical types, order and count are compared recursively; a second instance with another time codec describes the same type; every third case 4 goroutines call Descriptor() on the shared codec at once. distinct = distinct (type, configuration) pairs with more than two descriptor nodes",
+		Rule:      "generated and library types with a finite descriptor (all options, json tags incl. \",omitempty\", \"-\", unicode names, skipped and unexported fields, null.*, JSON any, BigQuery time, named scalars and containers) in the four configurations; index, name rule, field type, struct type name, explicit presence, logical types, order and count are compared recursively; a second instance with another time codec describes the same type; every third case 4 goroutines call Descriptor() on the shared codec at once; one copy of every Descriptor is rewritten by the caller at every level and another is decoded into, the next one must be unchanged. distinct = distinct (type, configuration) pairs with more than two descriptor nodes",
 		Assume:    []string{"recursive types are excluded: Descriptor() does not terminate on them (known finding D20)", "the free-form TypeName of map-entry pseudo-structs is not part of the statement and is not compared"},
 		Plan: func(tier string) []core.Lane {
 			if tier == "thorough" {
